@@ -79,6 +79,10 @@ def build_source(src, holder):
         lines = list(kw["lines"])
         holder["lines"] = lines
         return cb.Environments.from_supervised(cb.ArffSource(ListSource(lines)), label_col="kind", label_type="c")
+    if kind == "supervised_arff_sparse":
+        lines = list(kw["lines"])
+        holder["lines"] = lines
+        return cb.Environments.from_supervised(cb.ArffSource(ListSource(lines)), label_col="y", label_type="r")
     if kind == "supervised_libsvm":
         lines = list(kw["lines"])
         holder["lines"] = lines
@@ -167,7 +171,9 @@ def _instrument_stateful():
            EF.Impute.filter, EF.Impute._get_imputation, EF.Where.filter, getattr(EF.Where, "_context_len", None), EF.Unbatch.filter, getattr(EF.Unbatch, "_unbatch", None),
            EF.Batch.filter, EF.Scale.filter, EF.Noise.filter, EF.Sort.filter]
     import coba.utilities as U
-    asyncexc.instrument([f for f in fns + [U.try_else, U.peek_first] if hasattr(f, "__code__")])
+    import coba.pipes.readers as RD
+    import coba.pipes.rows as RW
+    asyncexc.instrument([f for f in fns + [U.try_else, U.peek_first, RD.ArffReader.filter, RW.EncodeRows.filter, RW.DropRows.filter] if hasattr(f, "__code__")])
 
 
 class _Any:
@@ -233,7 +239,7 @@ def snapshot_inputs(holder):
 # ----------------------------------------------------------------------------- spec generation
 def gen_src(rng):
     k = weighted(rng, [("linear", 3), ("neighbors", 1), ("bandit", 2), ("tagged", 2), ("lambda", 2), ("supervised_xy", 3),
-                       ("supervised_csv", 2), ("supervised_libsvm", 1), ("result", 1), ("supervised_arff", 1.5)])
+                       ("supervised_csv", 2), ("supervised_libsvm", 1), ("result", 1), ("supervised_arff", 1.5), ("supervised_arff_sparse", 1)])
     n = weighted(rng, [(0, 0.3), (1, 1), (3, 2), (8, 3), (26, 2), (40, 1), (80, 0.5)])
     if k == "linear":
         return ["linear", {"n_interactions": n, "n_actions": 2 + rng.randrange(3), "n_context_features": rng.randrange(3), "n_action_features": rng.randrange(3), "seed": rng.randrange(1, 30)}]
@@ -272,6 +278,18 @@ def gen_src(rng):
         for _ in range(m):
             lines.append(f"{rng.choice(names)},{rng.choice([1, 2.5, 3, 10])},{rng.choice(['A', 'B', 'C'])}")
         return ["supervised_arff", {"lines": lines}]
+    if k == "supervised_arff_sparse":
+        # sparse ARFF with a string attribute (omitted string values are "not sparse": the reader works that out per attribute at the start of a read)
+        m = max(2, min(n, 12))
+        lines = ["@relation r", "@attribute a numeric", "@attribute s string", "@attribute b numeric", "@attribute y numeric", "@data"]
+        for _ in range(m):
+            vals = {}
+            if rng.random() < 0.6: vals[0] = rng.choice([1, 2.5, 3])
+            if rng.random() < 0.4: vals[1] = rng.choice(["u", "v"])
+            if rng.random() < 0.5: vals[2] = rng.choice([4, 7])
+            if rng.random() < 0.7: vals[3] = rng.choice([1, 2])
+            lines.append("{" + ", ".join(f"{i} {v}" for i, v in sorted(vals.items())) + "}")
+        return ["supervised_arff_sparse", {"lines": lines}]
     if k == "supervised_libsvm":
         m = max(1, n)
         lines = [f"{rng.randrange(3)} " + " ".join(f"{j}:{rng.randrange(1, 5)}" for j in sorted(rng.sample(range(1, 6), 1 + rng.randrange(3)))) for _ in range(m)]
